@@ -715,3 +715,80 @@ func calleeBase(st *State, rng AV) AV {
 	}
 	return fun
 }
+
+// ------------------------------------------------------------------ RW.TMPL.CONSUMER (dispatch)
+//
+// ruleConsumerDispatch drives the cursor callback rewriteForRanges on a range
+// statement: when the operand is an iterator the *unmodified* statement (its
+// own key, token, operand and body) must be what the lowering receives and the
+// statement must be replaced by the lowering's result; otherwise nothing is
+// touched. The lowering itself is RW.TMPL.CONSUMER.
+func (r *rwRT) ruleConsumerDispatch() {
+	c := r.c
+	fn := r.method("rewriter", "rewriteForRanges")
+	c.fn(relName(fn))
+	pos := r.w.FnPos(fn)
+	for _, tok := range []string{"DEFINE", "ASSIGN"} {
+		for _, emptyBody := range []bool{false, true} {
+			for _, isIter := range []bool{true, false} {
+				st := newState()
+				_, key := r.identNode(st, "v")
+				var list AV = leafSym("fr.Body.List")
+				if emptyBody {
+					list = SliceV{}
+				}
+				bodyRef, _ := r.heapNode(st, "BlockStmt", map[string]AV{"List": list})
+				frRef, fr := r.heapNode(st, "RangeStmt", map[string]AV{"Key": key, "Value": Nil{}, "Tok": r.tokConst(tok), "X": exprLeaf(r, "fr.X"), "Body": bodyRef})
+				before := st.Render(frRef)
+				in := r.interp(rwConfig{root: fn, boundaries: map[string]bool{"rewriteForRange": true}})
+				in.OnCall = wrapOnCall(in.OnCall, func(cc *CallCtx) []Answer {
+					if cc.Fn != nil && cc.Fn.Name() == "Node" && cc.Fn.Signature.Recv() != nil && strings.Contains(cc.Fn.Signature.Recv().Type().String(), "astutil.Cursor") {
+						return []Answer{{Ret: []AV{fr}, NoEvent: true}}
+					}
+					return nil
+				})
+				outs := in.Run(st, fn, []AV{Sym{Name: "r", NN: true}, Sym{Name: "cursor", NN: true}, Sym{Name: "pkg", NN: true}}, nil)
+				r.account(in)
+				construct := fmt.Sprintf("dispatch: for v %s range x {%s}, x iterator = %v", map[string]string{"DEFINE": ":=", "ASSIGN": "="}[tok], map[bool]string{true: "", false: " body "}[emptyBody], isIter)
+				found := false
+				var err error
+				for _, o := range outs {
+					match := false
+					for _, l := range o.St.Labels {
+						if strings.HasPrefix(l, "isIterator(") && strings.HasSuffix(l, fmt.Sprintf("=%v", isIter)) {
+							match = true
+						}
+					}
+					if !match || o.Panicked {
+						continue
+					}
+					found = true
+					after := o.St.Render(frRef)
+					edits := cursorEdits(o.St, 0)
+					var lowered *Event
+					for i, e := range o.St.Events {
+						if e.Kind == "call" && e.Fn != nil && e.Fn.Name() == "rewriteForRange" && inRw(e.Fn) {
+							lowered = &o.St.Events[i]
+						}
+					}
+					switch {
+					case err != nil:
+					case epochRe.ReplaceAllString(after, "") != epochRe.ReplaceAllString(before, ""):
+						err = fmt.Errorf("the range statement is modified before it is lowered (its key, token, operand or body are no longer the source's: `for last = range g {}` must still assign last): %s", after)
+					case isIter && (lowered == nil || !sameAV(unwrap(lowered.Args[len(lowered.Args)-1]), frRef)):
+						err = fmt.Errorf("a range loop over an iterator is not handed to the lowering")
+					case isIter && (len(edits) != 1 || edits[0].Fn.Name() != "Replace" || lowered.Ret == nil || argLabel(edits[0].Args[1]) != argLabel(lowered.Ret)):
+						err = fmt.Errorf("the range statement is not replaced by exactly the lowering's result")
+					case !isIter && (lowered != nil || len(edits) != 0):
+						err = fmt.Errorf("a range loop whose operand is not an iterator is rewritten by the consumer pass")
+					}
+				}
+				if !found {
+					c.und("RW.TMPL.CONSUMER", construct, pos, "the lowering is not controlled by the iterator-type predicate on this shape")
+					continue
+				}
+				c.check(err == nil, "RW.TMPL.CONSUMER", construct, pos, map[bool]string{true: "the unmodified statement is lowered and replaced by the result", false: "left untouched"}[isIter], fmt.Sprint(err))
+			}
+		}
+	}
+}
